@@ -1,3 +1,4 @@
+import Agd.Tie.TrC14
 import Agd.Lemmas.ProfileDB
 import Agd.Lemmas.ProfileCache
 import Agd.Tie.C14
@@ -530,3 +531,10 @@ end Agd.ProfileCache
 #print axioms Agd.ProfileCache.filecache_auth_counterexample
 #print axioms Agd.ProfileCache.load_decision_spec
 #print axioms Agd.ProfileCache.store_kill_old_or_new
+#print axioms Agd.Tie.TrC14.translation_complete
+#print axioms Agd.Tie.TrC14.attached_iff
+#print axioms Agd.Tie.TrC14.linkedIP_cleanup_revalidates
+#print axioms Agd.Tie.TrC14.dedicatedIP_cleanup_revalidates
+#print axioms Agd.Tie.TrC14.device_cleanup_revalidates
+#print axioms Agd.Tie.TrC14.humanID_cleanup_revalidates
+#print axioms Agd.Tie.TrC14.humanID_cleanup_no_device
